@@ -396,6 +396,18 @@ pub fn bound_src(b: &Bound, ty: &str, it: &mut Items) -> Option<String> {
             let one = if fl { "1.0" } else { "1" };
             Some(format!("-{k} + {one}"))
         }
+        Form::Shr => {
+            let dbl = match v {
+                Val::I(x) => Val::I(x.checked_mul(2)?),
+                Val::U(x) => Val::U(x.checked_mul(2)?),
+                _ => return None,
+            };
+            if !fits(&dbl, ty) {
+                return None;
+            }
+            let k = it.konst(ty, &dbl);
+            Some(format!("{k} >> 1"))
+        }
         Form::ShadowMax => it.shadow_konst("MAX", ty, v),
         Form::ShadowMin => it.shadow_konst("MIN", ty, v),
         Form::NotLit => {
@@ -505,6 +517,14 @@ pub fn ufn_src(f: UFn, sp: Spell, inner: Inner, role: FnRole) -> String {
     match sp {
         Spell::Path => p,
         Spell::Bare => p.trim_start_matches("ulib::").to_string(),
+        Spell::ClosureReturn => match role {
+            // "return the argument itself when the function is the identity on it" – identity is bitwise for floats
+            // (abs(-0.0) == -0.0 but is a different value)
+            FnRole::Sanitizer if matches!(inner, Inner::F32 | Inner::F64) => format!("|v| {{ let w = {p}(v); if w.to_bits() == v.to_bits() {{ return v; }} w }}"),
+            FnRole::Sanitizer => format!("|v| {{ let w = {p}(v.clone()); if w == v {{ return v; }} w }}"),
+            FnRole::Predicate => format!("|v| {{ if {p}(v) {{ return true; }} false }}"),
+            FnRole::Check => format!("|v| {{ if let Err(e) = {p}(v) {{ return Err(e); }} Ok(()) }}"),
+        },
         Spell::Closure => format!("|v| {p}(v)"),
         Spell::ClosureTyped => format!("|v: {arg_ty}| {p}(v)"),
         Spell::ClosureMut => format!("|mut v| {{ v = {p}(v); v }}"),
